@@ -53,8 +53,8 @@ Fixpoint bad_idx (n: nat) (l: list bool) : list nat :=
 
 
 def _run_shard(args):
-    fam, k, exprs, imports = args
-    name = f"c_{fam}_{k}"
+    fam, k, exprs, imports, tag = args
+    name = f"c_{fam}_{tag}_{k}"
     path = os.path.join(CASES, name + ".v")
     with open(path, "w", encoding="utf-8") as f:
         f.write(PRELUDE.format(imports=" ".join(imports)))
@@ -63,7 +63,16 @@ def _run_shard(args):
     rc, out, err = sh(["timeout", "900", "coqc", "-Q", ".", "NGO", "-Q", "_cases", "NGOCases", path], cwd=COQ,
                       timeout=1000)
     if rc != 0:
-        return k, None, (err or out)[-1500:]
+        msg = (err or out)[-1500:]
+        m = re.search(r'line (\d+), characters (\d+)-(\d+)', msg)
+        if m:
+            try:
+                ln = open(path, encoding="utf-8").read().split("\n")[int(m.group(1)) - 1]
+                c = int(m.group(2))
+                msg += "\nOFFENDING TEXT: ..." + ln[max(0, c - 300):c + 200]
+            except Exception:  # pylint: disable=broad-except
+                pass
+        return k, None, msg
     m = re.search(r"=\s*\[(.*?)\]\s*:\s*list nat", out, re.S)
     if not m:
         return k, None, "unparsable coqc output: " + out[-500:]
@@ -87,7 +96,8 @@ def run_family(fam, cases, shard=SHARD, keep=False):
     res.distinct_nontrivial = sum(1 for c in uniq if c.nontrivial)
     res.samples = [c.desc for c in uniq if c.nontrivial][:3] or [c.desc for c in uniq][:3]
     shards = [uniq[i:i + shard] for i in range(0, len(uniq), shard)]
-    jobs = [(fam.name, k, [c.expr for c in sh_], fam.imports) for k, sh_ in enumerate(shards)]
+    tag = f"{os.getpid()}x{int(time.time() * 1000) % 100000000}"   # concurrent checks may run the same family
+    jobs = [(fam.name, k, [c.expr for c in sh_], fam.imports, tag) for k, sh_ in enumerate(shards)]
     with concurrent.futures.ThreadPoolExecutor(max_workers=NCPU) as ex:
         for k, idx, err in ex.map(_run_shard, jobs):
             if err is not None:
@@ -97,7 +107,7 @@ def run_family(fam, cases, shard=SHARD, keep=False):
                 res.mismatches.append(shards[k][i])
     if not keep:
         for f in os.listdir(CASES):
-            if f.startswith(f"c_{fam.name}_") or f.startswith(f".c_{fam.name}_"):
+            if f.startswith(f"c_{fam.name}_{tag}_") or f.startswith(f".c_{fam.name}_{tag}_"):
                 try:
                     os.remove(os.path.join(CASES, f))
                 except OSError:
